@@ -144,6 +144,70 @@ def rule_comparison_pair(A, R, rule):
     R.floor(rule, "call sites of the configured comparison with known operands", n4, 3)
 
 
+def dependency_checks(A):
+    """functions that decide whether a dependency is invalidated: Result<bool> methods that call the configured comparison"""
+    ei = [b for b in A.evaluator_methods() if b.locals[0]["s"].startswith("std::result::Result<bool")]
+    cands = []
+    for b in ei:
+        calls = [blk for blk in b.blocks if blk["term"]["t"]["k"] == "call" and (M.callee_of(blk["term"]["t"]) or ("",))[0] == STRAT + "is_history_altered"]
+        if calls:
+            cands.append(b)
+    return cands
+
+
+def rule_shielding(A, R, rule):
+    """'unaltered' never invalidates a dependency, 'altered' and 'no record' always do; the cached verdict reproduces the answer"""
+    # R15.2 shielding: 'unaltered' never invalidates an edge -------------------------------------------
+    ei = [b for b in A.evaluator_methods() if any(v for v in [1]) and b.locals[0]["s"].startswith("std::result::Result<bool")]
+    cands = []
+    for b in ei:
+        calls = [blk for blk in b.blocks if blk["term"]["t"]["k"] == "call" and (M.callee_of(blk["term"]["t"]) or ("",))[0] == STRAT + "is_history_altered"]
+        if calls:
+            cands.append(b)
+    R.floor(rule, "functions that decide whether a dependency is invalidated", len(cands), 1)
+    req = A.L.edge_fields
+    for b in cands:
+        for forced in (False, True):
+            I, fr, out, col = forced_analysis(A, b, {STRAT + "is_history_altered": force_bool(forced),
+                                                     "std::collections::HashMap::<K, V, S, A>::get": force_hist_some(A)},
+                                              cfgd=dict(label="EI"), state=edge_state(A, unknown=True))
+            rv = out.locals.get((fr.fid, 0)) if out is not None else None
+            oks = set()
+            if rv is not None and rv[0] == "adt" and rv[1] == RESULT and 0 in adt_variants(rv):
+                p = adt_variants(rv)[0][0]
+                if p[0] == "fin":
+                    oks = set(c[0] for c in p[2])
+            consulted = any(k[0] == "strategy_call" for k in I.rec.facts)
+            R.ob(rule, "%s | comparison says %s => the dependency is %s" % (short(b.name), "altered" if forced else "unaltered",
+                                                                               "invalidated" if forced else "not invalidated"),
+                 consulted and oks == ({1} if forced else {0}), detail="possible results: %s (consulted: %s)" % (sorted(oks), consulted))
+            # the flag cached for this outcome reproduces it
+            wrote = [v for k, v in I.rec.facts.items() if k[0] == "write_edge"]
+            for w in wrote:
+                val = w["value"]
+                st2 = edge_state(A, unknown=False, proj=w["proj"], value=val)
+                I2, fr2, out2, col2 = forced_analysis(A, b, {STRAT + "is_history_altered": force_bool(not forced)}, cfgd=dict(label="EI2"), state=st2)
+                rv2 = out2.locals.get((fr2.fid, 0)) if out2 is not None else None
+                oks2 = set()
+                if rv2 is not None and rv2[0] == "adt" and 0 in adt_variants(rv2):
+                    p = adt_variants(rv2)[0][0]
+                    if p[0] == "fin":
+                        oks2 = set(c[0] for c in p[2])
+                R.ob(rule, "%s | the cached verdict for '%s' is answered the same way later" % (short(b.name), "altered" if forced else "unaltered"),
+                     oks2 == ({1} if forced else {0}), detail="with the cached flag the result is %s" % sorted(oks2), site=A.site(w))
+        # no record at all => invalidated
+        I, fr, out, col = forced_analysis(A, b, {"std::collections::HashMap::<K, V, S, A>::get": force_hist_none(A),
+                                                 "std::collections::HashMap::<K, V, S, A>::keys": empty_iter},
+                                          cfgd=dict(label="EI3"), state=edge_state(A, unknown=True))
+        rv = out.locals.get((fr.fid, 0)) if out is not None else None
+        oks = set()
+        if rv is not None and rv[0] == "adt" and 0 in adt_variants(rv):
+            p = adt_variants(rv)[0][0]
+            if p[0] == "fin":
+                oks = set(c[0] for c in p[2])
+        R.ob(rule, "%s | no record of the dependency => invalidated" % short(b.name), oks == {1}, detail="possible results: %s" % sorted(oks))
+
+
 # =============================================================================================
 @prop("C15")
 def check_C15(A, R, tier):
@@ -169,55 +233,8 @@ def check_C15(A, R, tier):
         if uses:
             R.ob("R15.1", "%s | textual equality of the two records can only mean 'unaltered'" % short(b.name), ok,
                  detail="with equal records the implementation may still answer 'altered'")
-    # R15.2 shielding: 'unaltered' never invalidates an edge -------------------------------------------
-    ei = [b for b in A.evaluator_methods() if any(v for v in [1]) and b.locals[0]["s"].startswith("std::result::Result<bool")]
-    cands = []
-    for b in ei:
-        calls = [blk for blk in b.blocks if blk["term"]["t"]["k"] == "call" and (M.callee_of(blk["term"]["t"]) or ("",))[0] == STRAT + "is_history_altered"]
-        if calls:
-            cands.append(b)
-    R.floor("R15.2", "functions that decide whether a dependency is invalidated", len(cands), 1)
-    req = A.L.edge_fields
-    for b in cands:
-        for forced in (False, True):
-            I, fr, out, col = forced_analysis(A, b, {STRAT + "is_history_altered": force_bool(forced),
-                                                     "std::collections::HashMap::<K, V, S, A>::get": force_hist_some(A)},
-                                              cfgd=dict(label="EI"), state=edge_state(A, unknown=True))
-            rv = out.locals.get((fr.fid, 0)) if out is not None else None
-            oks = set()
-            if rv is not None and rv[0] == "adt" and rv[1] == RESULT and 0 in adt_variants(rv):
-                p = adt_variants(rv)[0][0]
-                if p[0] == "fin":
-                    oks = set(c[0] for c in p[2])
-            consulted = any(k[0] == "strategy_call" for k in I.rec.facts)
-            R.ob("R15.2", "%s | comparison says %s => the dependency is %s" % (short(b.name), "altered" if forced else "unaltered",
-                                                                               "invalidated" if forced else "not invalidated"),
-                 consulted and oks == ({1} if forced else {0}), detail="possible results: %s (consulted: %s)" % (sorted(oks), consulted))
-            # the flag cached for this outcome reproduces it
-            wrote = [v for k, v in I.rec.facts.items() if k[0] == "write_edge"]
-            for w in wrote:
-                val = w["value"]
-                st2 = edge_state(A, unknown=False, proj=w["proj"], value=val)
-                I2, fr2, out2, col2 = forced_analysis(A, b, {STRAT + "is_history_altered": force_bool(not forced)}, cfgd=dict(label="EI2"), state=st2)
-                rv2 = out2.locals.get((fr2.fid, 0)) if out2 is not None else None
-                oks2 = set()
-                if rv2 is not None and rv2[0] == "adt" and 0 in adt_variants(rv2):
-                    p = adt_variants(rv2)[0][0]
-                    if p[0] == "fin":
-                        oks2 = set(c[0] for c in p[2])
-                R.ob("R15.2", "%s | the cached verdict for '%s' is answered the same way later" % (short(b.name), "altered" if forced else "unaltered"),
-                     oks2 == ({1} if forced else {0}), detail="with the cached flag the result is %s" % sorted(oks2), site=A.site(w))
-        # no record at all => invalidated
-        I, fr, out, col = forced_analysis(A, b, {"std::collections::HashMap::<K, V, S, A>::get": force_hist_none(A),
-                                                 "std::collections::HashMap::<K, V, S, A>::keys": empty_iter},
-                                          cfgd=dict(label="EI3"), state=edge_state(A, unknown=True))
-        rv = out.locals.get((fr.fid, 0)) if out is not None else None
-        oks = set()
-        if rv is not None and rv[0] == "adt" and 0 in adt_variants(rv):
-            p = adt_variants(rv)[0][0]
-            if p[0] == "fin":
-                oks = set(c[0] for c in p[2])
-        R.ob("R15.2", "%s | no record of the dependency => invalidated" % short(b.name), oks == {1}, detail="possible results: %s" % sorted(oks))
+    rule_shielding(A, R, "R15.2")
+    cands = dependency_checks(A)
     rule_comparison_pair(A, R, "R15.4")
     # R15.5: the cached verdict of a dependency is written only for the dependency that was compared
     vfields = set()
@@ -571,6 +588,10 @@ def rule_validation_verdict(A, R, rule):
                              "(e.g. in an interrupted run) is validated, skipped or run as 'validated'"))
         for name, ok in res["gate"]:
             R.ob(rule, "%s | 'validated' is answered only with %s" % (short(b.name), name), ok)
+        low = sorted(res.get("lowered", ()), key=str)
+        R.ob(rule, "%s | what an earlier upstream contributed to the verdict is never undone by a later one" % short(b.name), not low,
+             detail="accumulator %s can return to its initial value in the iteration for an upstream in %s: whether a changed input "
+                    "invalidates the job then depends on the order of the dependencies" % (low[0][0] if low else "", A.sname(low[0][1]) if low else ""))
         R.floor(rule, "upstream states for which the dependency check is consulted", sum(1 for v in res["consulted"].values() if v), 5)
     return uvs, vt
 
@@ -830,6 +851,33 @@ def verdict_loop(A, b, ei_names, vt, validated):
                     if same:
                         passing = True
             res["pass"][(d, ei_val)] = passing
+            # evidence is never lost: started with an accumulator away from its initial value (an invalidated dependency / an
+            # undecided upstream seen earlier), no iteration brings it back to the initial value
+            for l, v in accs.items():
+                if v[0] == "fin":
+                    raised = ("fin", BOOL, frozenset([(1,), (0,)]) - v[2], ())
+                else:
+                    raised = ("int", v[1] + 1)
+                for s0 in somes:
+                    if s0 not in ins:
+                        continue
+                    st = ins[s0].copy()
+                    for l2, v2 in accs.items():
+                        st.locals[(fr0.fid, l2)] = raised if l2 == l else v2
+                    hk = ("job", sym)
+                    cell = st.heap.get(hk)
+                    st.heap[hk] = av_set(cell, (("f", A.L.state_field),), fin(A.L.jobstate, [d]), A.uni)
+                    col3 = {}
+                    I.run(fr0, st, start=s0, stops={h, cont}, collect=col3)
+                    for b_, s3 in col3["stops"].items():
+                        cur = s3.locals.get((fr0.fid, l))
+                        lowered = False
+                        if v[0] == "fin":
+                            lowered = cur is None or cur[0] != "fin" or bool(v[2] & cur[2])
+                        else:
+                            lowered = cur is None or cur[0] != "int" or (cur[1] is not None and cur[1] == v[1])
+                        if lowered:
+                            res.setdefault("lowered", set()).add((body.local_name(l), d))
             if called:
                 res["consulted"][d] = True
             if called or direct:
